@@ -126,4 +126,39 @@ def bondSlack (offs : List Vec3) (atoms : List BAtom) : Option Rat :=
     | a1 :: rest => go rest (row a1 rest acc)
   go atoms none
 
+/-! ### the scanned minimum and a cutoff-independent guard (used by Props/C17Min.lean) -/
+
+/-- minimum of `f` over the non-empty list `x :: l` -/
+def minOver {α} (f : α → Rat) : α → List α → Rat
+  | x, [] => f x
+  | x, y :: l => let m := minOver f y l; if f x ≤ m then f x else m
+
+/-- the smallest squared distance among the 27 images `detect_bonds` scans -/
+def scanMinDist2 (L : Mat3) (p q : Vec3) : Rat :=
+  match ucMultipliers with
+  | [] => distSq p q
+  | m :: ms => minOver (fun m => distSq (p + L.lattice m.1 m.2.1 m.2.2) q) m ms
+
+/-- one row of the guard below: `Σ_j |w·w_j| · ‖A_j‖²` for the reciprocal directions `w_j = A_{j+1} × A_{j+2}` -/
+def Mat3.scanRow (L : Mat3) (w : Vec3) : Rat :=
+  ratAbs (Vec3.dot w (Vec3.cross L.b L.c)) * Vec3.normSq L.a
+  + ratAbs (Vec3.dot w (Vec3.cross L.c L.a)) * Vec3.normSq L.b
+  + ratAbs (Vec3.dot w (Vec3.cross L.a L.b)) * Vec3.normSq L.c
+
+/-- a cutoff-INDEPENDENT guard on the shape of the cell under which the 27 scanned images always contain a nearest
+    image of every in-cell pair: `det ≠ 0` and for each `k`, `Σ_j |(G⁻¹)_kj| · G_jj ≤ 2` (`G` the Gram matrix), written
+    division-free as `Σ_j |w_k·w_j| · ‖A_j‖² ≤ 2·det²`.  Every orthorhombic cell satisfies it (the sum is `det²`);
+    so do moderately tilted cells (e.g. tilt factors up to half an edge of a cube). -/
+def Mat3.scanReduced (L : Mat3) : Prop :=
+  L.det ≠ 0
+  ∧ L.scanRow (Vec3.cross L.b L.c) ≤ 2 * (L.det * L.det)
+  ∧ L.scanRow (Vec3.cross L.c L.a) ≤ 2 * (L.det * L.det)
+  ∧ L.scanRow (Vec3.cross L.a L.b) ≤ 2 * (L.det * L.det)
+
+instance (L : Mat3) : Decidable L.scanReduced := by unfold Mat3.scanReduced; infer_instance
+
+/-- guards of the cutoff-independent theorem for one structure: reduced cell, every atom inside the cell -/
+def bondGuardsReduced (pos : List Vec3) (L : Mat3) : Bool :=
+  decide L.scanReduced && pos.all (fun p => decide (L.inside p))
+
 end Mofun
